@@ -198,7 +198,7 @@ class Recorder final : public StepInterface
 {
   public:
     Recorder(CbSpec spec, size_type streams)
-        : spec_(std::move(spec)), got_(streams), calls_(streams, 0)
+        : spec_(std::move(spec)), got_(streams), calls_(streams, 0), out_(streams)
     {
     }
     Filters filters() const final
@@ -219,9 +219,11 @@ class Recorder final : public StepInterface
         }
         else
         {
-            DetectorStepOutput out;
-            copy_steps(&out, s.steps);
-            got_[i] = serialise_det(out);
+            // ONE persistent output object per stream, re-used at every iteration as the
+            // production callbacks do: whatever copy_steps leaves in it from the previous
+            // iteration is delivered again
+            copy_steps(&out_[i], s.steps);
+            got_[i] = serialise_det(out_[i]);
         }
     }
     void process_steps(DeviceStepState) final {}
@@ -238,6 +240,7 @@ class Recorder final : public StepInterface
     CbSpec spec_;
     std::vector<std::string> got_;
     std::vector<size_type> calls_;
+    std::vector<DetectorStepOutput> out_;
 };
 
 //---------------------------------------------------------------------------//
@@ -674,6 +677,23 @@ void run_scenario(std::map<std::string, std::string> const& kv)
         }
         if (ad)
         {
+            // the map accessor and the id -> label tables go to the impl-side oracle only
+            std::cout << "# amap";
+            for (auto const& kv : ad->calc_actions_map())
+            {
+                std::string k = kv.first;
+                for (auto& ch : k)
+                    if (ch == ' ')
+                        ch = '~';
+                std::cout << " " << k << "=" << kv.second;
+            }
+            std::cout << "\n# alabels";
+            for (auto a : range(ActionId{prob->actions().num_actions()}))
+                std::cout << " " << prob->actions().id_to_label(a);
+            std::cout << "\n# plabels";
+            for (auto pid : range(ParticleId{prob->core->particle()->size()}))
+                std::cout << " " << prob->core->particle()->id_to_label(pid);
+            std::cout << "\n";
             out += " | a";
             for (auto const& row : ad->calc_actions())
                 for (auto v : row)
